@@ -448,7 +448,11 @@ def r07_8(ctx, g):
     ict = repo.func("gaftools.utils", "is_correct_tag", "R07.8")
     ctx.analysed_func(ict)
     src = norm(ict.node)
-    ctx.check("re.match(tag_regex, tag)" in src and "types_regex[tag_type]" in src, "R07.8", ict.where(), "a tag is accepted iff it matches the tag grammar and its value matches the grammar of its type", key_of(ict, "is-correct-tag"))
+    from ..core import regex_call
+
+    pats = [rc for c in walk_own(ict.node) for rc in [regex_call(um, c)] if rc is not None]
+    uses_grammar = any(rc[0] in ("match", "fullmatch") and rc[1] == tr.value and rc[2] and norm(rc[2][0]) == ict.params[0] for rc in pats)
+    ctx.check(uses_grammar and "types_regex[" in src, "R07.8", ict.where(), "a tag is accepted iff it matches the tag grammar and its value matches the grammar of its type", key_of(ict, "is-correct-tag"))
 
 
 def r07_9(ctx, g):
